@@ -23,7 +23,16 @@ type monState struct {
 	sent     *big.Int  // value+fee of those operations
 }
 
+// at most 3 reports per signature: the report keeps only the first 200 failures and an
+// unknown signature must never be crowded out by repetitions of a known one
+var sigCount = map[string]int{}
+
 func (m *monState) fail(sig, what string) {
+	sigCount[sig]++
+	m.rep.Count("monitor-failure:" + sig)
+	if sigCount[sig] > 3 {
+		return
+	}
 	m.rep.Fail(sig, fmt.Sprintf("case %d (%s): %s", m.c.ID, m.c.Note, what), m.c)
 }
 
@@ -225,7 +234,11 @@ func classify(c *Case, rep *hlib.Report) {
 					k = "call:ok"
 				}
 				rep.Count(k)
-				rep.Count(fmt.Sprintf("call-depth:%d", d+1))
+				if d+1 <= 4 {
+					rep.Count(fmt.Sprintf("call-depth:%d", d+1))
+				} else {
+					rep.Count("call-depth:5+")
+				}
 				fp += "(" + k
 				walk(ev.Sub, d+1)
 				fp += ")"
